@@ -72,6 +72,7 @@ func ruleLeaveComplete(r *Run) {
 		}
 		full++
 		site := fn.Name
+		r.loopsComplete("E1", fn, path)
 		// modules told
 		iHD := idxOfCall(path, modHD, 0)
 		hdOK := iHD >= 0
@@ -316,6 +317,7 @@ func ruleModuleCleanup(r *Run) {
 		cases := map[string]int{}
 		for pi := range paths {
 			path := &paths[pi]
+			r.loopsComplete("E3", fn, path)
 			for i, ev := range path.Events {
 				if ev.Kind != EvGuard || ev.GKind != GRange || !ev.Val {
 					continue
